@@ -70,12 +70,18 @@ fn build(n: &GN) -> Command {
     let mut c = Command::new(n.name.clone());
     for a in &n.aliases { c = c.visible_alias(a.clone()); }
     if let Some(a) = &n.about { c = c.about(a.clone()); }
-    for a in &n.args {
+    for (k, a) in n.args.iter().enumerate() {
         let mut x = Arg::new(a.id.clone());
         if let Some(s) = a.short { x = x.short(s); }
         if let Some(l) = &a.long { x = x.long(l.clone()); }
         for s in &a.vshorts { x = x.visible_short_alias(*s); }
         for l in &a.vlongs { x = x.visible_alias(l.clone()); }
+        // HIDDEN aliases (never to be mentioned) on about a third of the options, with and without visible ones next to
+        // them: `get_visible_aliases()` is then `Some([])`, not `None`
+        if !a.positional && (k + a.id.len()) % 3 == 0 {
+            if a.short.is_some() && k < 10 { x = x.short_alias(char::from(b'0' + k as u8)); }
+            if a.long.is_some() { x = x.alias(format!("{}-hidden-alias", a.id)); }
+        }
         x = if a.takes { x.action(ArgAction::Set) } else { x.action(ArgAction::SetTrue) };
         if a.optval { x = x.num_args(0..=1); if a.takes { x = x.default_missing_value(a.pvs.first().map(|p| p.0.clone()).unwrap_or("dm".into())); } }
         if a.multi { x = x.num_args(1..); }
